@@ -74,8 +74,25 @@ NEEDS = {
  "C17-e": "a name with two ADJACENT number tokens (ico_12_17)",
  "C19-e": "default position mode, at least two radii and a small direction grid (n_o = 2..7): kron returns a BSR matrix without .row/.col",
  "C20-e": "an xvg file with exactly one data line (squeeze() collapses the single-row column to a 0-d array)",
+ "C01-f": "a strictly positive cell volume of 1e-8 or smaller (np.isclose(volume, 0) with its absolute tolerance -> replaced by inf -> rate 0)",
+ "C02-f": "position_grid_cartesian=True: the full-grid borders/distances are built from the layered-sphere quantities while the position grid reports Cartesian ones",
+ "C04-f": "a randomQ grid with N = 7..24: two cells whose only shared face is between +q_i and the copy of q_j more than a quarter turn away",
+ "C05-f": "a radial grid with a spacing that is not a multiple of 0.001 Angstrom (increments rounded to 3 decimals)",
+ "C07-f": "algorithm fulldiv (any admissible N): about half of the rows have a negative first non-zero coordinate",
+ "C09-f": "a single-direction grid (integer array [[0,0,1]]) and a radius that is not a whole number of Angstroms",
+ "C10-f": "the optional dimensions= keyword of Pseudotrajectory and a row whose position component exceeds half the box edge",
+ "C11-f": "include_outliers=False, >= 2 frames, an outlier frame before an in-grid frame, n_b > 1 (rotation indices of earlier frames)",
+ "C12-f": "a trajectory shorter than tau with L < tau < 2L (negative slice bounds)",
+ "C13-f": "all cells deleted (empty index list), then a merge naming two or more of the deleted cells",
+ "C14-f": "a 6-D cell volume below 1e-5 (small metric factor): replaced by 1 in the rate matrix",
+ "C16-f": "a linspace/range/arange form that DEScends from a non-negative start into negative values",
+ "C17-f": "a name containing 'zero' and a number other than 1 (zero_5, 7_zero4D, zero_0)",
+ "C19-f": "a one-point grid spelled by algorithm name without a number (zero, zero3D, zero4D)",
+ "C20-f": "a legend text with leading/trailing blanks, or two legends differing only by such blanks",
 }
 NOT_CAUGHT = {
+ "C07-f": "no VIOLATION line: generator level (outside what C07 claims); the generators' contract re-checked on every run is broken -> harness error (exit 2) naming it",
+ "C11-f": "not caught: the defect sits in the rotation recovery (_get_rotation_matrices: Pool map over principal axes), which C11 stubs (eigen-decomposition + SVD, outside the claim); the stand-in honours a frames argument, so the changed outer logic is exercised and is correct",
  "C07-e": "no VIOLATION line: the defect is in a concrete generator (outside what C07 claims, DESIGN section 6); the check re-validates the generators' contract on small real grids on every run and ends with a harness error (exit 2) that names the broken contract",
  "C12-d": "not caught, and not catchable inside the bound: the defect is a 32-bit wrap that needs more than 46 340 cells (the check covers n <= 4 and models Python/NumPy integers as mathematical integers); the restructured counting (np.unique(return_counts) / divmod / coo_array on symbolic cell indices) is also beyond what the array model encodes, so the check ends with a harness error (exit 2), never with a pass",
  "C14-d": "not caught: the spectral sentence is covered for the sorting glue only, with ARPACK as a contract stub for the plain call; what ARPACK returns when it is handed a stale shift-invert operator is ARPACK's semantics (outside, DESIGN section 6). With sigma=None -- the only setting the glue harness uses -- the changed code behaves exactly as before, so the check passes",
@@ -93,7 +110,7 @@ for d in sorted(glob.glob(os.path.join(ROOT, "seeded", "C*-*"))):
         runs[p] = {"exit": 1 if "VIOLATION property=" in t else (2 if "HARNESS-ERROR" in t else 0), "violation_lines": sum(1 for l in t.splitlines() if l.startswith("VIOLATION")),
                    "summary": next((l for l in t.splitlines() if l.startswith("[")), "")}
     meta = {"seed": sid, "breaks_property": prop,
-            "origin": "fresh sub-agent given only the property text and a scratch worktree of /repo" + {"a": " (round 1)", "b": " (round 2: told which idea was already taken)", "c": " (round 3: told the two ideas already taken; asked for multi-step sequences, cooperating sites, state, aliasing)", "d": " (round 4: told the three ideas already taken; asked for a clearly different mechanism and site)", "e": " (round 5: told the ideas already taken; asked for boundary/tie/ordering mistakes, simplifications valid only for uniform inputs, numpy/scipy API subtleties)"}[sid[-1]],
+            "origin": "fresh sub-agent given only the property text and a scratch worktree of /repo" + {"a": " (round 1)", "b": " (round 2: told which idea was already taken)", "c": " (round 3: told the two ideas already taken; asked for multi-step sequences, cooperating sites, state, aliasing)", "d": " (round 4: told the three ideas already taken; asked for a clearly different mechanism and site)", "e": " (round 5: told the ideas already taken; asked for boundary/tie/ordering mistakes, simplifications valid only for uniform inputs, numpy/scipy API subtleties)", "f": " (round 6: told the ideas already taken; asked for option/default drift, error-path drift, two cooperating sites)"}[sid[-1]],
             "needs_to_manifest": NEEDS.get(sid, ""),
             "confirmed_in_scratch_worktree": {"command": f"tools/seedconfirm.sh seeded/{sid}", "result": summ,
                                               "meaning": "demo.py exits 0 on /repo HEAD and 1 with patch.diff applied; full existing suite with the patch: only the 4 known missing-input failures of tests/test_pt.py"},
